@@ -339,6 +339,7 @@ def real_mp_tier(ctx, R, B, C, kill_at=None, delay=None, bgzf_aligned=False):
     except subprocess.TimeoutExpired:
         rc, hung = None, True
     lines = lines_of(open(out).read()) if os.path.exists(out) else []
+    real_mp_tier.killed = os.path.exists(out + ".killed")
     return rc, hung, [l.split("\t")[0] for l in lines]
 
 
